@@ -190,6 +190,45 @@ def one_case(task):
                 out["variants"].append("rename-unrelated")
                 compare_unrelated(run(v, "e"), "an unrelated module is renamed", skip_prefixes=(own,),
                                   reuses_names=False, edited=x["qname"])
+        # (g) two classes of one name in two modules, one of them re-exported through a wildcard import; a module that uses
+        #     one of them must not change when an unrelated module that uses the OTHER one is added
+        root = pkg["root"]
+
+        def plain_module(name, classes=(), functions=()):
+            return {"kind": "module", "name": name, "pkg": [root], "qname": f"{root}.{name}", "classes": list(classes),
+                    "functions": list(functions), "enums": [], "doc": "", "imports": set()}
+
+        def point(mod):
+            return {"kind": "class", "name": "ZzPoint", "qname": f"{root}.{mod}.ZzPoint", "bases": [], "inst_attrs": [], "init": None,
+                    "attrs": [{"name": "zz_x", "ann": ("int",), "value": "0", "doc": ""}], "methods": [], "classes": [], "doc": "",
+                    "extras": {}}
+
+        def user(fn, mod):
+            return {"kind": "function", "name": fn, "method_kind": None, "ret": ("None",), "returns": None, "doc": "", "result_doc": "",
+                    "is_property": False, "result_doc_type": None, "rest_type_first": True,
+                    "params": [{"name": "p", "kind": "POSITION_OR_NAME", "ann": ("cls", "ZzPoint", f"{root}.{mod}.ZzPoint"),
+                                "default": None, "doc": "", "doc_type": None}]}
+        if f"{root}.zz_shapes" not in {m["qname"] for m in pkg["modules"]}:
+            common = copy.deepcopy(pkg)
+            common["modules"] += [plain_module("zz_shapes", [point("zz_shapes")]), plain_module("zz_coords", [point("zz_coords")])]
+            common["inits"].setdefault(root, []).append({"form": "star", "module": f"{root}.zz_shapes"})
+            area = plain_module("zz_area", functions=[user("zz_area_of", "zz_shapes")])
+            plot = plain_module("zz_plot", functions=[user("zz_plot_it", "zz_coords")])
+            out["variants"].append("same-name-star")
+            runs = {}
+            for tag, mods in (("g_area", [area]), ("g_plot", [plot]), ("g_both", [area, plot])):
+                v = copy.deepcopy(common)
+                v["modules"] += copy.deepcopy(mods)
+                runs[tag] = run(v, tag)
+            for single, mod in (("g_area", "zz_area"), ("g_plot", "zz_plot")):
+                ra, rb = runs[single], runs["g_both"]
+                if ra["outcome"] != "ok" or rb["outcome"] != "ok":
+                    continue
+                pth = f"{root}/{mod}/{mod}.sdsstub"
+                if ra["files"].get(pth) != rb["files"].get(pth):
+                    fail(f"adding an unrelated module that uses the other class named ZzPoint changed the stub {pth}",
+                         variant="same-name-star", path=pth, before=(ra["files"].get(pth) or "")[:500],
+                         after=(rb["files"].get(pth) or "")[:500], reuses_names=False)
         # (d) the top-level functions of one module are permuted
         cands = [m for m in pkg["modules"] if len(m["functions"]) >= 2 and m["qname"] not in reexp
                  and not any(seg.startswith("_") for seg in m["pkg"][1:] + [m["name"]])]
@@ -224,8 +263,9 @@ def one_case(task):
                     fail(f"permutation of the functions of {x['qname']}: the declarations of {p} are not the same ones "
                          f"({bad[:2] or sorted(set(da) ^ set(db))[:2]})", path=p, before=a[p][:800], after=tb[:800])
                 else:
-                    fa = [d.name for d in sa.decls if d.kind == "fun"]
-                    fb = [d.name for d in sb.decls if d.kind == "fun"]
+                    # only the functions of the specification are permuted (zz_overloaded keeps its place in the source)
+                    fa = [d.name for d in sa.decls if d.kind == "fun" and d.pyname != "zz_overloaded"]
+                    fb = [d.name for d in sb.decls if d.kind == "fun" and d.pyname != "zz_overloaded"]
                     if fb != list(reversed(fa)):
                         fail(f"permutation of the functions of {x['qname']}: order in the stub {fb}, expected {list(reversed(fa))}",
                              path=p)
